@@ -376,7 +376,7 @@ class Checker:
     def floor(self, rule, minimum):
         n = sum(1 for o in self.obligations if o.rule == rule)
         self.counts[rule] = n
-        if n < minimum:
+        if n < minimum and not any(o.rule == rule and o.status == 'violation' for o in self.obligations):
             raise AnalysisError(
                 f'{rule}: only {n} rule instances found, at least {minimum} were '
                 f'confirmed by hand on the pinned tree (rule would pass vacuously)'
